@@ -307,6 +307,13 @@ def comparison(cond, pol):
             neg = not neg
             c = c['args'][0]
             continue
+        if isinstance(c, dict) and c.get('k') == 'local' and isinstance(c.get('e'), dict):
+            # a boolean local that holds the outcome of a comparison: `const bool ok = a == b; if (!ok)`
+            e = unwrap_casts(c['e'])
+            if isinstance(e, dict) and ((e.get('k') == 'bin' and e.get('op') in _FLIP) or (e.get('k') == 'un' and e.get('op') == '!')
+                                        or (e.get('k') == 'call' and e.get('op') in _FLIP and len(e.get('args', [])) == 2)):
+                c = e
+                continue
         break
     if isinstance(c, dict) and c.get('k') == 'bin' and c.get('op') in _FLIP:
         op, l, r = c['op'], c['l'], c['r']
